@@ -301,6 +301,10 @@ def gen_formula(rng, depth=3, dots=False, mutate=0.2):
             # '.' on the right together with variables used on the left through Python code / quoted names
             lhs = ("add", lhs[1] + [(["+"], ("atom", rng.choice(["log(a)", "f(b, c)", "np.exp(c)", "log(y)", "I(x)", "`y`", "g(a, y)"])))])
             rhs[0] = ("add", rhs[0][1] + [(["+"], ("dot",))])
+        if rng.random() < 0.04:
+            # a quoted name whose text looks like an interaction, next to that interaction: different terms
+            q, (x1, x2) = rng.choice([("`a:b`", ("a", "b")), ("`b:c`", ("b", "c")), ("`a:b`", ("b", "a"))])
+            rhs[0] = ("add", rhs[0][1] + [(["+"], ("atom", q)), ([rng.choice("+-")], ("bin", ":", ("atom", x1), ("atom", x2)))])
         try:
             for t in ([lhs] if lhs is not None else []) + rhs:
                 est_terms(t)
